@@ -211,6 +211,10 @@ func (b *Builder) epsilonClosureOnePass(root nfa.StateID) ([]closureEntry, bool,
 		case nfa.StateEpsilon:
 			// Follow epsilon transition
 			next := state.Epsilon()
+			if next == nfa.InvalidState {
+				// Dangling epsilon (dead end), nothing to follow
+				continue
+			}
 			if err := b.stackPush(next, slots); err != nil {
 				return nil, false, err
 			}
